@@ -14,13 +14,14 @@ import Driver.Config
 import Driver.FailStop
 import Driver.Builders
 import Driver.Conc
+import Driver.Convo
 open Driver
 
 /-- op name → handler. Each domain lives in its own `Driver/<Domain>.lean` and exports `<domain>Handlers`;
     add one import above and one `++` here. -/
 def handlers : List (String × Handler) :=
   secAlgHandlers ++ aperHandlers ++ secHistHandlers ++ milenageHandlers ++ akaHandlers ++ nasCodecHandlers ++ extractHandlers ++ configHandlers ++ nasCtorHandlers
-    ++ suciHandlers ++ ueHandlers ++ convHandlers ++ failStopHandlers ++ buildersHandlers ++ concHandlers
+    ++ suciHandlers ++ ueHandlers ++ convHandlers ++ failStopHandlers ++ buildersHandlers ++ concHandlers ++ convoHandlers
 
 def step (line : String) : String :=
   match (line.trimAscii.toString.splitOn " ").filter (· ≠ "") with
